@@ -90,13 +90,21 @@ type raceJob struct {
 
 func raceTransforms(jsOnly bool) error {
 	var jobs []*raceJob
+	byText := map[string]omniparser.Schema{}
 	for _, j := range c15Jobs() {
 		if jsOnly && !strings.Contains(j.Schema, "javascript") {
 			continue
 		}
-		s, err, _ := hx.NewSchema("s", j.Schema)
-		if err != nil {
-			return fmt.Errorf("schema %s: %v", j.name(), err)
+		// jobs with the same schema text share ONE Schema object (e.g. the typed-externals jobs, which
+		// differ in their external properties only)
+		s, ok := byText[j.Schema]
+		if !ok {
+			var err error
+			s, err, _ = hx.NewSchema("s", j.Schema)
+			if err != nil {
+				return fmt.Errorf("schema %s: %v", j.name(), err)
+			}
+			byText[j.Schema] = s
 		}
 		jobs = append(jobs, &raceJob{name: j.Name, schema: s, input: j.Input, ext: j.Ext})
 	}
